@@ -27,8 +27,8 @@ def opEip712Encode (j : Json) : Json :=
     | .ok v => some (extOfJson v)
     | _ => none
   let dom := optExt "domain"; let msg := optExt "message"
-  let fuel := 6 * (max ((dom.map extDepth).getD 1) ((msg.map extDepth).getD 1)) + 24
   let p : TypedData := { types := types, primaryType := Json.getStr! j "primaryType", domain := dom, message := msg }
+  let fuel := docNeed p
   Json.mkObj [("model", outcomeJson hexJson (encodeTypedDataV4 fuel p))]
 
 partial def valOfJson (j : Json) : Spec.Eip712.Val :=
